@@ -654,6 +654,11 @@ def sync_jobs(
     else:
         logger.debug(f"Synchronizing job '{src}'...")
 
+    if proxy.dry_run and not os.path.isdir(dst.path):
+        # Nothing to compare with: a real run would initialize the job and copy everything.
+        logger.more(f"Destination job '{dst}' is not initialized (dry run).")
+        return
+
     if os.path.isdir(src.path):
         if not dry_run:
             dst.init()
